@@ -52,7 +52,9 @@ func decode(mask int32, bm []uint64) (r []uint64, p string) {
 			p = fmt.Sprint("panic: ", e)
 		}
 	}()
-	return bmtree.Decode(mask, bm), ""
+	// The bitmap is handed over as a window into a larger, non-zero buffer: "words beyond len(bm)
+	// reading as 0" is about the LENGTH; what lies in the spare capacity is not part of the bitmap.
+	return bmtree.Decode(mask, gen.DirtyU64(bm, 20)), ""
 }
 
 func eqU64(a, b []uint64) bool {
